@@ -250,10 +250,11 @@ def contract_request(case):
 
 # ---------------------------------------------------------------------------------------------- case generation / coverage
 
-def gen_backend_case(rng, b, bounded, maxlen, fail_p=0.0, stopper=None, timeout=False, api='sync'):
-  """One schedule-replay case of `lib_queue` on backend `b`.  Bounded cases have a source longer than the capacity and
-  half of the schedules are PHASED producers-first (the producers run until every one of them is parked on the full
-  buffer or done; only then the consumers start), so that `put` finds the buffer full."""
+def gen_backend_case(rng, k, b, bounded, maxlen, fail_p=0.0, stopper=None, timeout=False):
+  """One schedule-replay case of `lib_queue` on backend `b` (k = running index: the schedule kind rotates).  Bounded
+  cases have a source longer than the capacity; a quarter of the schedules are PHASED producers-first (the producers run
+  until every one of them is parked on the full buffer or done; only then the consumers start), so that `put` finds the
+  buffer full; a quarter consumers-first (they find the buffer empty); the rest seeded uniform-random / PCT."""
   cap = rng.choice([1, 1, 2, 3]) if bounded else 0
   undeclared = b in UNDECLARED
   nprod = 1 if undeclared else rng.randrange(1, 4)
@@ -274,12 +275,14 @@ def gen_backend_case(rng, b, bounded, maxlen, fail_p=0.0, stopper=None, timeout=
       ths.append(dict(kind='get'))
   if stopper is not None:
     ths.append(stopper)
-  r = rng.random()
-  if r < 0.5:
-    sched = dict(kind='phased', seed=rng.randrange(10**9), tw=0.1 if timeout else 0.0,
-                 phases=[dict(tids=list(range(nprod))), dict(tids=list(range(nprod, len(ths))))])
+  prods, rest = list(range(nprod)), list(range(nprod, len(ths)))
+  mode = k % 4
+  if mode == 0:      # producers ahead: `put` meets the backend's Full
+    sched = dict(kind='phased', seed=rng.randrange(10**9), tw=0.1 if timeout else 0.0, phases=[dict(tids=prods), dict(tids=rest)])
+  elif mode == 1:    # consumers ahead: `get_nowait` meets the backend's Empty
+    sched = dict(kind='phased', seed=rng.randrange(10**9), tw=0.1 if timeout else 0.0, phases=[dict(tids=rest), dict(tids=prods)])
   else:
-    sched = dict(kind=rng.choice(['random', 'pct']), seed=rng.randrange(10**9), tw=0.1,
+    sched = dict(kind='random' if mode == 2 else 'pct', seed=rng.randrange(10**9), tw=0.1,
                  changes=rng.randrange(1, 6), horizon=rng.choice([50, 150, 400]))
   return dict(cap=cap, max_enq=0 if undeclared else nprod, timeout=timeout, backend=b, threads=ths, sched=sched)
 
